@@ -158,6 +158,7 @@ OV = '@'
 class Ref:
     def __init__(self, g: G, text: str, actions=None):
         self.g = g
+        self.spanlog = []        # (rule, start after leading whitespace, end, value) of every successful rule evaluation
         self.actions = actions   # semantic actions: callable(rule_name, ast, params, kwparams) -> value ; may raise
         self.t = text
         self.n = len(text)
@@ -425,6 +426,7 @@ class Ref:
             if self.actions is not None:
                 ps, kws = self.g.rule_params.get(name, ((), {}))
                 v = self.actions(name, v, ps, kws)     # SemanticFailure -> Fail ; anything else propagates
+            self.spanlog.append((name, p, q, v))
             return q, v
         finally:
             self.depth -= 1
